@@ -376,7 +376,7 @@ Definition flow_state_channel_delNick : list string :=
 Definition flow_state_channel_isOn : list string :=
   ["cp.Copy"; "return"].
 Definition flow_state_channel_parseModes : list string :=
-  ["for{"; "switch{"; "case"; "case"; "case"; "case"; "case"; "case"; "case"; "case"; "case"; "case"; "case"; "case"; "case"; "if{"; "}"; "else{"; "if{"; "}"; "else{"; "}"; "}"; "case"; "if{"; "strconv.Atoi"; "}"; "else{"; "if{"; "}"; "else{"; "}"; "}"; "case"; "if{"; "if{"; "switch{"; "case"; "case"; "case"; "case"; "case"; "}"; "}"; "else{"; "}"; "}"; "else{"; "}"; "case"; "}"; "}"].
+  ["for{"; "switch{"; "case"; "case"; "case"; "case"; "case"; "case"; "case"; "case"; "case"; "case"; "case"; "case"; "case"; "if{"; "}"; "else{"; "if{"; "}"; "else{"; "}"; "}"; "case"; "if{"; "strconv.Atoi"; "}"; "else{"; "if{"; "}"; "else{"; "}"; "}"; "case"; "if{"; "}"; "case"; "if{"; "if{"; "switch{"; "case"; "case"; "case"; "case"; "case"; "}"; "}"; "else{"; "}"; "}"; "else{"; "}"; "case"; "}"; "}"].
 Definition flow_state_init : list string :=
   ["for{"; "}"].
 Definition flow_state_newChannel : list string :=
